@@ -250,9 +250,9 @@ def conclude(ctx, mod, t0, evidence_path, args):
         replayed = bool(rep and rep.get("replayed"))
         lines.append(f"VIOLATION property={prop} replay={os.path.relpath(path, VERIF)}" + ("" if replayed else " no-failing-input-found"))
         status = 1
-    if status == 0 and (undecided or cover_unknown):
+    if status == 0 and undecided:
         status = 2
-        for v in undecided + cover_unknown:
+        for v in undecided:
             lines.append(f"UNDECIDED property={prop} obligation={v.name} backends={v.result['log']}")
     if vacuous:
         status = max(status, 3) if status != 1 else 1
@@ -284,6 +284,7 @@ def conclude(ctx, mod, t0, evidence_path, args):
         functions_under_contract=ctx.functions,
         trivially_true_obligations=len(ctx.engine.trivial) if ctx.engine else 0,
         cover_checks=len(covers), cover_ok=len([v for v in covers if v.result["verdict"] == "sat"]),
+        cover_inconclusive=[v.name for v in cover_unknown],
         by_backend=by_backend, solver_seconds=round(solver_s, 2),
         refuted=[v.name for v in refuted], undecided=[v.name for v in undecided],
         known_findings=[{"id": k["id"], "what": k["what"]} for k, _, _ in known_hits],
